@@ -4,6 +4,8 @@ From Coq Require Import NArith ZArith List Bool.
 Require Import Board Stack Rules Move Refine RefinePlace RefinePlace2 RefinePlace3 Slide1 Slide2 Slide3 Slide4 Slide5 Slide6 Slide7 HashInv.
 Require Import GameOver Alloc Generated.Consts.
 Require Import Preserve1 Preserve5 Preserve6 Reach1 HashMove1 Canon8 PreserveEx.
+Require Tps Symmetry SymCode1 Sym.
+Require Import TpsFacts5 Import1 Import2 Import6.
 Import ListNotations.
 
 (* Vocabulary: pos_ok (Preserve1.v) is the invariant of positions that tak.New establishes and every successful move
@@ -77,6 +79,60 @@ Theorem C08_nonvacuous_transposition : ms_a <> ms_b /\ replay start5 ms_a = Ok p
   equal pa pb = true /\ hash_of pa = hash_of pb.
 Proof. exact ex_transposition. Qed.
 Print Assumptions C08_nonvacuous_transposition.
+
+(* ==================== HOWEVER PRODUCED (Import6.v, on top of Import1-4.v) ====================
+   produced (Import6.v) is the inductive closure of the ways a position comes into being:
+     pr_new      tak.New, any size 3..8, tie-break flag and byte piece counts;
+     pr_squares  tak.FromSquares (on tak.New with the default counts) of a fit_board: n x n squares, 3 <= n <= 8, each [] or of the shape
+                 Position.At produces and at most 64 high, ANY ply number, no condition on the piece counts;
+     pr_tps      ptn.ParseTPS of any accepted text none of whose stacks is above 64;
+     pr_image    the position symmetry.Symmetries rebuilds from a produced one (At of every square permuted by a coordinate map, FromSquares);
+     pr_move     Position.Move (not Pass) from a produced position, when the result has no stack above 64 (the representation limit).
+   same_at p q   Position.At returns the same square at every index of the board ("the same stacks on every square"). *)
+Theorem C08_produced_ok : forall p, produced p -> pos_ok p.
+Proof. exact produced_ok. Qed.
+Print Assumptions C08_produced_ok.
+
+(* replays from tak.New are produced (games of at most 64 pieces; or any game while no stack on the way exceeds 64) *)
+Theorem C08_produced_reachable : forall sz bwt stones caps ms p, (3 <= sz <= 8)%N -> (2 * (stones + caps) <= 64)%N -> no_pass ms ->
+  replay (new_pos sz bwt stones caps) ms = Ok p -> produced p.
+Proof. exact produced_reachable. Qed.
+Print Assumptions C08_produced_reachable.
+
+Theorem C08_produced_replay : forall ms p q, produced p -> no_pass ms ->
+  (forall ms1 ms2 r, ms = ms1 ++ ms2 -> replay p ms1 = Ok r -> heights64 r) -> replay p ms = Ok q -> produced q.
+Proof. exact produced_replay. Qed.
+Print Assumptions C08_produced_replay.
+
+(* At shows the same squares iff the abstract boards agree *)
+Theorem C08_same_at_abs : forall p q, pos_ok p -> pos_ok q -> size p = size q -> (same_at p q <-> sq (abs p) = sq (abs q)).
+Proof. exact same_at_abs. Qed.
+Print Assumptions C08_same_at_abs.
+
+(* THE PROPERTY: two positions, each produced in any of these ways (any mix: a TPS import moved on, rotated, ...), with the same size, the
+   same stacks on every square and the same side to move are Equal, have the same Hash() and the same incremental hash ... *)
+Theorem C08_equal_hash_however_produced : forall p q, produced p -> produced q ->
+  size p = size q -> same_at p q -> same_side p q ->
+  equal p q = true /\ hash_of p = hash_of q /\ hash p = hash q.
+Proof. exact equal_hash_however_produced. Qed.
+Print Assumptions C08_equal_hash_however_produced.
+
+(* ... and positions that differ in size, in any piece or in the side to move compare unequal *)
+Theorem C08_equal_sound_produced : forall p q, produced p -> produced q -> equal p q = true ->
+  size p = size q /\ same_at p q /\ same_side p q.
+Proof. exact equal_sound_produced. Qed.
+Print Assumptions C08_equal_sound_produced.
+
+(* NON-VACUITY: p14 reached by replaying 14 plies, the position parsed from its TPS text "2,x3,1/x4,1C/x4,2S/x4,22221/2,x4 1 8" (tps_p14),
+   and p14 rotated (k = 6) and rotated back (k = 7) are all produced, Equal, with the same Hash(); the rotated position is not Equal *)
+Theorem C08_nonvacuous_however_produced : exists q r,
+  Tps.format_tps p14 = tps_p14 /\ Tps.parse_tps gen_basis tps_p14 = Ok q /\
+  r = Symmetry.image gen_basis (Symmetry.image gen_basis p14 (SymCode1.csym 5 6)) (SymCode1.csym 5 7) /\
+  produced p14 /\ produced q /\ produced r /\
+  equal p14 q = true /\ hash_of p14 = hash_of q /\ equal q r = true /\ hash_of q = hash_of r /\
+  equal p14 (Symmetry.image gen_basis p14 (SymCode1.csym 5 6)) = false.
+Proof. exact ex_however_produced. Qed.
+Print Assumptions C08_nonvacuous_however_produced.
 
 (* NOT PROVED (and not provable): "no two of the millions of explored positions share a hash" is a statistical
    statement about a 64-bit mixer; the harness runs a census on the implementation (exploration, not proof). *)
